@@ -338,6 +338,10 @@ func (d *Data) handleIndex(ctx *datastore.VersionedCtx, w http.ResponseWriter, r
 		}
 		defer server.ThrottledOpDone()
 	}
+	if len(parts) < 5 {
+		server.BadRequest(w, r, "expect label to follow 'index' endpoint")
+		return
+	}
 	metadata := (queryStrings.Get("metadata-only") == "true")
 	mutidStr := queryStrings.Get("mutid")
 	var mutID uint64
@@ -733,6 +737,10 @@ func (d *Data) handleMutationsRange(ctx *datastore.VersionedCtx, w http.Response
 		return
 	}
 
+	if len(parts) < 6 {
+		server.BadRequest(w, r, "expect beginning and end of range to follow 'mutations-range' endpoint")
+		return
+	}
 	rangefmt := queryStrings.Get("rangefmt")
 	switch rangefmt {
 	default:
